@@ -133,6 +133,7 @@ type ContractSet struct {
 	Files   []string
 	PkgDirs map[string]string // import path -> dir
 	Errors  []string
+	PkgInvs map[string][]Clause // package path -> invariants over the package's variables
 }
 
 func (cs *ContractSet) FuncKeysSorted() []string {
@@ -455,6 +456,23 @@ func (cs *ContractSet) parseFile(root, file string) error {
 			// rendered into this package of the fixture module
 			pkg = strings.TrimSpace(rest)
 			cs.Rendered[pkg] = true
+			cur = nil
+		case "pkginvariant":
+			// pkginvariant name: expr  - a property of the package's variables that every function of the package may
+			// assume on entry and every function under contract whose frame contains such a variable re-establishes
+			i := strings.Index(rest, ":")
+			if i < 0 {
+				return bad(c, "pkginvariant needs `name: expr`")
+			}
+			body := strings.TrimSpace(rest[i+1:])
+			e, err := parseE(c, body)
+			if err != nil {
+				return err
+			}
+			if cs.PkgInvs == nil {
+				cs.PkgInvs = map[string][]Clause{}
+			}
+			cs.PkgInvs[pkg] = append(cs.PkgInvs[pkg], Clause{Name: strings.TrimSpace(rest[:i]), Src: body, Expr: e, Line: c.line})
 			cur = nil
 		case "check":
 			fields := strings.Fields(rest)
